@@ -76,8 +76,9 @@ type c04Needle struct {
 }
 
 type c04Scanner struct {
-	by map[uint64][]*c04Needle
-	n  int
+	by     map[uint64][]*c04Needle
+	first2 [65536]bool // pre-filter on the first two bytes (keeps the per-byte cost of a scan tiny)
+	n      int
 }
 
 func (s *c04Scanner) add(class, desc string, b []byte) {
@@ -89,6 +90,7 @@ func (s *c04Scanner) add(class, desc string, b []byte) {
 	}
 	k := binary.LittleEndian.Uint64(b)
 	s.by[k] = append(s.by[k], &c04Needle{Class: class, Desc: desc, B: append([]byte(nil), b...)})
+	s.first2[int(b[0])|int(b[1])<<8] = true
 	s.n++
 }
 
@@ -125,6 +127,9 @@ type c04Hit struct {
 func (s *c04Scanner) scan(b []byte) []c04Hit {
 	var hits []c04Hit
 	for i := 0; i+8 <= len(b); i++ {
+		if !s.first2[int(b[i])|int(b[i+1])<<8] {
+			continue
+		}
 		cands, ok := s.by[binary.LittleEndian.Uint64(b[i:])]
 		if !ok {
 			continue
